@@ -5,6 +5,7 @@ import (
 	"sort"
 	"strings"
 
+	"github.com/modernizing/coca/pkg/application/call"
 	"github.com/modernizing/coca/pkg/application/rcall"
 	"verif/engine"
 )
@@ -105,6 +106,54 @@ func checkRCall(g genGraph, target string) engine.Result {
 	return res
 }
 
+// checkLookup: `coca call -l` draws the call graph of the target plus its reverse call graph; the reverse part
+// is C04's relation: well-formed, only caller-chain edges, every direct caller of the target present.
+func checkLookup(g genGraph, target string) engine.Result {
+	deps := g.Model.ToDeps()
+	dot := call.NewCallGraph().Analysis(target, deps, true)
+	res := engine.Result{
+		InputKey: g.Model.String() + "|lookup-target=" + target,
+		Input:    map[string]interface{}{"model": strings.Split(strings.TrimSpace(g.Model.String()), "\n"), "target": target, "through": "call graph with lookup"},
+	}
+	declared := map[string]bool{}
+	for _, m := range g.Model.Methods {
+		declared[m.Full()] = true
+	}
+	callers := map[string]bool{}
+	for _, m := range g.Model.Methods {
+		for _, c := range m.Calls {
+			if c.Class != "" && c.Full() == target && declared[target] && m.Full() != target {
+				callers[m.Full()] = true
+			}
+		}
+	}
+	res.Nontrivial = len(callers) > 0
+	es, err := ParseDotEdges(dot)
+	if err != nil {
+		res.Outcome = "UNPARSABLE " + dot
+		res.Violations = append(res.Violations, engine.V("lookup-dot-well-formed", "strict-reader", "call graph with lookup is not well-formed DOT: %v\n%s", err, dot))
+		return res
+	}
+	got := edgeSet(es)
+	res.Outcome = strings.Join(sortedEdges(got), "\n")
+	for a := range callers {
+		if !got[Edge{a, target}] {
+			res.Violations = append(res.Violations, engine.Violation{Clause: "lookup-direct-callers", Kind: "missing",
+				Detail: fmt.Sprintf("direct caller %q of target %q is missing from the call graph drawn with lookup\nmodel:\n%sdot:\n%s", a, target, g.Model.String(), dot)})
+			break
+		}
+	}
+	return res
+}
+
+func c04LookupGen(o graphOpts) func(c *engine.C) engine.Case {
+	return func(c *engine.C) engine.Case {
+		g := buildGraph(c, o)
+		target := g.Names[c.Choose(o.N, "target")]
+		return func() engine.Result { return checkLookup(g, target) }
+	}
+}
+
 func c04Gen(o graphOpts) func(c *engine.C) engine.Case {
 	return func(c *engine.C) engine.Case {
 		g := buildGraph(c, o)
@@ -132,6 +181,10 @@ func init() {
 			{Name: "rcall-multi-n2", KQuick: -1, KThor: -1, Gen: c04Gen(graphOpts{N: 2, MaxMult: 3, Extras: true, DistMenu: true})},
 			{Name: "rcall-dev-n5", KQuick: 3, KThor: 4, Gen: c04Gen(graphOpts{N: 5, MaxMult: 2, Extras: true, DistMenu: true})},
 			{Name: "rcall-full-n4", KQuick: -1, KThor: -1, Gen: c04Gen(graphOpts{N: 4, MaxMult: 1})},
+			{Name: "lookup-full-n3", KQuick: -1, KThor: -1, Gen: c04LookupGen(graphOpts{N: 3, MaxMult: 1, DistMenu: true})},
+			{Name: "lookup-full-n3-overloaded", KQuick: -1, KThor: -1, Gen: c04LookupGen(graphOpts{N: 3, MaxMult: 1, Overload: true})},
+			{Name: "lookup-multi-n2", KQuick: -1, KThor: -1, Gen: c04LookupGen(graphOpts{N: 2, MaxMult: 3, Extras: true})},
+			{Name: "lookup-dev-n8", KQuick: 3, KThor: 4, Gen: c04LookupGen(graphOpts{N: 8, MaxMult: 1})},
 			{Name: "through-coca-call-rcall-count", KQuick: 1, KThor: 2, Gen: cliGraphGen},
 		},
 	})
